@@ -62,7 +62,7 @@ theorem evalStep_defined (senv : Spec.Env) (srec : Spec.Rec) (scope0 : List Node
     (h6 : Spec.kwNot (srec (scope0 ++ [s])) n j = some r6)
     (h7 : Spec.kwIf (srec (scope0 ++ [s])) n j = some r7)
     (h8 : Spec.kwItems senv (srec (scope0 ++ [s])) n j = some r8)
-    (h9 : Spec.kwContains (srec (scope0 ++ [s])) n j = some r9)
+    (h9 : Spec.kwContains (srec (scope0 ++ [s])) (Spec.vocab senv.draft n) j = some r9)
     (h10 : Spec.kwProps senv (srec (scope0 ++ [s])) n j = some r10)
     (h11 : Spec.kwPropertyNames (srec (scope0 ++ [s])) n j = some r11)
     (h12 : Spec.kwDependentSchemas senv (srec (scope0 ++ [s])) n j = some r12) :
@@ -70,8 +70,8 @@ theorem evalStep_defined (senv : Spec.Env) (srec : Spec.Rec) (scope0 : List Node
       specTail (Spec.conj [r1, r2, r3, r4, r5, r6, r7, r8, r9, r10, r11, r12])
         (Spec.typeOk n j && Spec.enumOk n j && Spec.constOk n j && Spec.numericOk n j && Spec.stringOk senv n j &&
           Spec.arrayLimitsOk n j && Spec.objectLimitsOk senv n j)
-        (Spec.kwUnevaluatedItems (srec (scope0 ++ [s])) n j)
-        (Spec.kwUnevaluatedProps (srec (scope0 ++ [s])) n j) := by
+        (Spec.kwUnevaluatedItems (srec (scope0 ++ [s])) (Spec.vocab senv.draft n) j)
+        (Spec.kwUnevaluatedProps (srec (scope0 ++ [s])) (Spec.vocab senv.draft n) j) := by
   unfold Spec.evalStep
   simp only [hn, hnd7, Bool.false_eq_true, if_false, h1, h2, h3, h4, h5, h6, h7, h8, h9, h10, h11, h12,
     Spec.sequence, Option.map_some]
@@ -82,8 +82,8 @@ theorem evalStep_defined (senv : Spec.Env) (srec : Spec.Rec) (scope0 : List Node
     simp only
     split
     · rfl
-    · cases Spec.kwUnevaluatedItems (srec (scope0 ++ [s])) n j ev0 <;>
-        cases Spec.kwUnevaluatedProps (srec (scope0 ++ [s])) n j ev0 <;> rfl
+    · cases Spec.kwUnevaluatedItems (srec (scope0 ++ [s])) (Spec.vocab senv.draft n) j ev0 <;>
+        cases Spec.kwUnevaluatedProps (srec (scope0 ++ [s])) (Spec.vocab senv.draft n) j ev0 <;> rfl
 
 theorem finish (j : Json) (a7 : Anns) (R17 R812 : Spec.R) (A1 A2 : Bool) (ui up : Spec.Ev → Option Spec.R)
     (T : Res Anns)
@@ -298,7 +298,7 @@ include H
 theorem tail_arr (env : VEnv) (hwf : EnvWF env) (n : Node) (i : Info) (xs : List Json)
     (hj : Json.WF (.arr xs) = true) (a7 : Anns) {r8 r9 r10 r11 r12 : Spec.R}
     (h8 : Spec.kwItems (specEnvOf env) sub n (.arr xs) = some r8)
-    (h9 : Spec.kwContains sub n (.arr xs) = some r9)
+    (h9 : Spec.kwContains sub (Spec.vocab env.draft n) (.arr xs) = some r9)
     (h10 : Spec.kwProps (specEnvOf env) sub n (.arr xs) = some r10)
     (h11 : Spec.kwPropertyNames sub n (.arr xs) = some r11)
     (h12 : Spec.kwDependentSchemas (specEnvOf env) sub n (.arr xs) = some r12) :
@@ -308,8 +308,8 @@ theorem tail_arr (env : VEnv) (hwf : EnvWF env) (n : Node) (i : Info) (xs : List
         bObject env rec stack n (some i) (ofJson (.arr xs)) a9) = .err) ∧
     (∀ e17 e, AnnsMatch (.arr xs) a7 e17 → Spec.conj [r8, r9, r10, r11, r12] = some e →
       (Spec.arrayLimitsOk n (.arr xs) && Spec.objectLimitsOk (specEnvOf env) n (.arr xs)) = true →
-      ∀ ri rp, Spec.kwUnevaluatedItems sub n (.arr xs) (e17.union e) = some ri →
-        Spec.kwUnevaluatedProps sub n (.arr xs) (e17.union e) = some rp →
+      ∀ ri rp, Spec.kwUnevaluatedItems sub (Spec.vocab env.draft n) (.arr xs) (e17.union e) = some ri →
+        Spec.kwUnevaluatedProps sub (Spec.vocab env.draft n) (.arr xs) (e17.union e) = some rp →
         Blk (.arr xs) a7 (conj2 (some e) (conj2 ri rp))
           (Res.bind (bArray env rec stack n (ofJson (.arr xs)) a7) fun a9 =>
             bObject env rec stack n (some i) (ofJson (.arr xs)) a9)) := by
@@ -345,7 +345,7 @@ theorem tail_obj (env : VEnv) (n : Node) (i : Info) (kvs : List (String × Json)
     (hj : Json.WF (.obj kvs) = true) (hpnd : ((n.properties.getD []).map (·.1)).Nodup) (a7 : Anns)
     {r8 r9 r10 r11 r12 : Spec.R}
     (h8 : Spec.kwItems (specEnvOf env) sub n (.obj kvs) = some r8)
-    (h9 : Spec.kwContains sub n (.obj kvs) = some r9)
+    (h9 : Spec.kwContains sub (Spec.vocab env.draft n) (.obj kvs) = some r9)
     (h10 : Spec.kwProps (specEnvOf env) sub n (.obj kvs) = some r10)
     (h11 : Spec.kwPropertyNames sub n (.obj kvs) = some r11)
     (h12 : Spec.kwDependentSchemas (specEnvOf env) sub n (.obj kvs) = some r12) :
@@ -355,8 +355,8 @@ theorem tail_obj (env : VEnv) (n : Node) (i : Info) (kvs : List (String × Json)
         bObject env rec stack n (some i) (ofJson (.obj kvs)) a9) = .err) ∧
     (∀ e17 e, AnnsMatch (.obj kvs) a7 e17 → Spec.conj [r8, r9, r10, r11, r12] = some e →
       (Spec.arrayLimitsOk n (.obj kvs) && Spec.objectLimitsOk (specEnvOf env) n (.obj kvs)) = true →
-      ∀ ri rp, Spec.kwUnevaluatedItems sub n (.obj kvs) (e17.union e) = some ri →
-        Spec.kwUnevaluatedProps sub n (.obj kvs) (e17.union e) = some rp →
+      ∀ ri rp, Spec.kwUnevaluatedItems sub (Spec.vocab env.draft n) (.obj kvs) (e17.union e) = some ri →
+        Spec.kwUnevaluatedProps sub (Spec.vocab env.draft n) (.obj kvs) (e17.union e) = some rp →
         Blk (.obj kvs) a7 (conj2 (some e) (conj2 ri rp))
           (Res.bind (bArray env rec stack n (ofJson (.obj kvs)) a7) fun a9 =>
             bObject env rec stack n (some i) (ofJson (.obj kvs)) a9)) := by
@@ -393,7 +393,7 @@ omit H in
 theorem tail_other (env : VEnv) (n : Node) (i : Info) (j : Json) (hna : ∀ xs, j ≠ .arr xs) (hno : ∀ kvs, j ≠ .obj kvs)
     (a7 : Anns) {r8 r9 r10 r11 r12 : Spec.R}
     (h8 : Spec.kwItems (specEnvOf env) sub n j = some r8)
-    (h9 : Spec.kwContains sub n j = some r9)
+    (h9 : Spec.kwContains sub (Spec.vocab env.draft n) j = some r9)
     (h10 : Spec.kwProps (specEnvOf env) sub n j = some r10)
     (h11 : Spec.kwPropertyNames sub n j = some r11)
     (h12 : Spec.kwDependentSchemas (specEnvOf env) sub n j = some r12) :
@@ -403,8 +403,8 @@ theorem tail_other (env : VEnv) (n : Node) (i : Info) (j : Json) (hna : ∀ xs, 
         bObject env rec stack n (some i) (ofJson j) a9) = .err) ∧
     (∀ e17 e, AnnsMatch j a7 e17 → Spec.conj [r8, r9, r10, r11, r12] = some e →
       (Spec.arrayLimitsOk n j && Spec.objectLimitsOk (specEnvOf env) n j) = true →
-      ∀ ri rp, Spec.kwUnevaluatedItems sub n j (e17.union e) = some ri →
-        Spec.kwUnevaluatedProps sub n j (e17.union e) = some rp →
+      ∀ ri rp, Spec.kwUnevaluatedItems sub (Spec.vocab env.draft n) j (e17.union e) = some ri →
+        Spec.kwUnevaluatedProps sub (Spec.vocab env.draft n) j (e17.union e) = some rp →
         Blk j a7 (conj2 (some e) (conj2 ri rp))
           (Res.bind (bArray env rec stack n (ofJson j) a7) fun a9 =>
             bObject env rec stack n (some i) (ofJson j) a9)) := by
@@ -444,7 +444,7 @@ theorem evalStep_undefined (senv : Spec.Env) (srec : Spec.Rec) (scope0 : List No
       Spec.kwAllOf (srec (scope0 ++ [s])) n j, Spec.kwAnyOf (srec (scope0 ++ [s])) n j,
       Spec.kwOneOf (srec (scope0 ++ [s])) n j, Spec.kwNot (srec (scope0 ++ [s])) n j,
       Spec.kwIf (srec (scope0 ++ [s])) n j, Spec.kwItems senv (srec (scope0 ++ [s])) n j,
-      Spec.kwContains (srec (scope0 ++ [s])) n j, Spec.kwProps senv (srec (scope0 ++ [s])) n j,
+      Spec.kwContains (srec (scope0 ++ [s])) (Spec.vocab senv.draft n) j, Spec.kwProps senv (srec (scope0 ++ [s])) n j,
       Spec.kwPropertyNames (srec (scope0 ++ [s])) n j,
       Spec.kwDependentSchemas senv (srec (scope0 ++ [s])) n j] = none) :
     Spec.evalStep senv srec scope0 s j = none := by
@@ -505,7 +505,7 @@ theorem step_refines (env : VEnv) (hwf : EnvWF env) (hst : StoreWF env.st) (srec
         Spec.kwAllOf (srec (stack0 ++ [s])) n j, Spec.kwAnyOf (srec (stack0 ++ [s])) n j,
         Spec.kwOneOf (srec (stack0 ++ [s])) n j, Spec.kwNot (srec (stack0 ++ [s])) n j,
         Spec.kwIf (srec (stack0 ++ [s])) n j, Spec.kwItems (specEnvOf env) (srec (stack0 ++ [s])) n j,
-        Spec.kwContains (srec (stack0 ++ [s])) n j, Spec.kwProps (specEnvOf env) (srec (stack0 ++ [s])) n j,
+        Spec.kwContains (srec (stack0 ++ [s])) (Spec.vocab env.draft n) j, Spec.kwProps (specEnvOf env) (srec (stack0 ++ [s])) n j,
         Spec.kwPropertyNames (srec (stack0 ++ [s])) n j,
         Spec.kwDependentSchemas (specEnvOf env) (srec (stack0 ++ [s])) n j] with
       | none =>
@@ -542,8 +542,8 @@ theorem step_refines (env : VEnv) (hwf : EnvWF env) (hst : StoreWF env.st) (srec
               bObject env rec (stack0 ++ [s]) n (some i) (ofJson j) a9) = .err) ∧
           (∀ e17 e, AnnsMatch j a7 e17 → Spec.conj [r8, r9, r10, r11, r12] = some e →
             (Spec.arrayLimitsOk n j && Spec.objectLimitsOk (specEnvOf env) n j) = true →
-            ∀ ri rp, Spec.kwUnevaluatedItems (srec (stack0 ++ [s])) n j (e17.union e) = some ri →
-              Spec.kwUnevaluatedProps (srec (stack0 ++ [s])) n j (e17.union e) = some rp →
+            ∀ ri rp, Spec.kwUnevaluatedItems (srec (stack0 ++ [s])) (Spec.vocab env.draft n) j (e17.union e) = some ri →
+              Spec.kwUnevaluatedProps (srec (stack0 ++ [s])) (Spec.vocab env.draft n) j (e17.union e) = some rp →
               Blk j a7 (conj2 (some e) (conj2 ri rp))
                 (Res.bind (bArray env rec (stack0 ++ [s]) n (ofJson j) a7) fun a9 =>
                   bObject env rec (stack0 ++ [s]) n (some i) (ofJson j) a9)) := by
